@@ -83,6 +83,19 @@ MC_PLANS = {
     "C14": ("solve:soft,softhints,softconflict", 50, 500, False),
 }
 
+# implementation -> spec for the solver core: real executions re-run through LazyCdclW with
+# the recorded decisions (Trace_CdclW.tla): (plan, n quick, n thorough)
+SX_PLANS = {
+    "C01": ("solve:base,locks,excl,unknown,hints,hintcons,selfreq,large", 40, 600),
+    "C02": ("solve:midconflict,conflict,bigconflict,hintcons,selfreq,large", 60, 1000),
+    "C03": ("solve:midconflict,conflict,bigconflict,cyclic", 60, 1000),
+    "C05": ("solve:midconflict,conflict,direct,base,cyclic,selfreq", 50, 800),
+    "C07": ("solve:clean,unionoverlap,manycands", 60, 800),
+    "C08": ("solve:direct,direct2", 100, 1500),
+    "C14": ("solve:soft,softhints,softconflict,softeager,softlone", 80, 1200),
+    "C15": ("solve:hintcons,manycands", 60, 800),
+}
+
 # rules that also count against a property although they carry another prefix
 ALSO = {
     "C10": ["C04_Panic", "C04_Timeout", "C04_Crash", "C09_DupDeps", "C09_DupCands", "C02_VerdictDiffers",
@@ -93,6 +106,8 @@ ALSO = {
             "C02_UnsatButSatisfiable", "C01_V_RootReq", "C01_V_RootCons", "C01_V_Known", "C01_V_Req", "C01_V_Cons",
             "C01_V_Excluded", "C01_V_Locked", "C01_V_OnePerName", "C01_DupInSolution", "C01_NotASolvable", "C01_DbNotSatisfied"],
     "C02": ["C04_Panic", "C04_Timeout", "C04_Crash"],
+    # the at-most-one part of C01 at the level of the encoding
+    "C01": ["C15_PairNotExcluded"],
     # an implied assignment whose reason is not unit survives the undo of what justified it:
     # the operational form of "dependencies of abandoned candidates are not installed"
     "C05": ["C02_ReasonIsUnit", "C02_ReasonLogged", "C04_Panic", "C04_Timeout", "C04_Crash"],
@@ -192,6 +207,19 @@ def trace_check(prop, tier, seed, plans, t0, extra_cov=None, jobs=12, build_prof
         plan, nq, nt, live = MC_PLANS[prop][:4]
         mc_info, mc_viol = mc_lazycdcl(prop, tier, seed, plan, nq if tier == "quick" else nt, liveness=live,
                                        cancel=len(MC_PLANS[prop]) > 4 and MC_PLANS[prop][4])
+    if prop in SX_PLANS:
+        plan, nq, nt = SX_PLANS[prop]
+        try:
+            sx_info, sx_viol = step_exact_replay(prop, tier, seed, plan, nq if tier == "quick" else nt,
+                                                 timeout=300 if tier == "quick" else 3000)
+        except vlib.ToolError as e:
+            # the replay is a conformance measurement: when the model cannot follow the code at
+            # all (TLC error, timeout) that is recorded, the property's own rules decide
+            log(f"[{prop}] step-exact replay not completed: {str(e)[-400:]}")
+            sx_info, sx_viol = {"step_exact_error": str(e)[-400:]}, []
+        mc_info.update(sx_info)
+        mc_viol = mc_viol + sx_viol
+        mc_info["mc_states"] = mc_info.get("mc_states", 0) + sx_info.get("step_exact_states", 0)
     for bp, other in list(zip(build_profiles, exes))[1:]:
         # the same cases again in another build profile (debug assertions on)
         copies = []
@@ -507,4 +535,100 @@ def mc_lazycdcl(prop, tier, seed, plan, n, liveness=False, timeout=None, cancel=
             "mc_verdict_mismatches": len(verdict_mismatch)}
     log(f"[{prop}] LazyCdcl MC: {cnt} cases, {st['distinct']} states, real outcome in model set {member}/{len(real) - nomodel}, "
         f"verdict mismatches {len(verdict_mismatch)}")
+    return info, viol
+
+
+# ---------------------------------------------------------------------------
+# implementation -> spec for the solver core: recorded executions re-run through
+# LazyCdclW with the real decisions (Trace_CdclW.tla)
+# ---------------------------------------------------------------------------
+def step_exact_replay(prop, tier, seed, plan, n, timeout=600):
+    """Runs the real solver (hooks on) over `n` generated single-solve cases of `plan`,
+    extracts the decision sequence of every run, lets TLC drive LazyCdclW with it and
+    compares what the model computes with what the code returned.  A divergence is a
+    CONFORMANCE finding about the model (it is logged and counted in the evidence), not a
+    violation of a property: only the invariants TLC evaluates along the replay are."""
+    exe = vlib.build_harness("release")
+    wd = os.path.join(vlib.WORK, prop)
+    os.makedirs(wd, exist_ok=True)
+    allc = os.path.join(wd, "sx.all")
+    vlib.gen_cases(exe, allc, plan, n, seed + 4242, "", whitebox=True, render=False, first_id=800001)
+    trace = os.path.join(wd, "sx.trace")
+    vlib.run_cases(exe, allc, trace)
+    # per case: decisions (as solvables) and the result
+    runs, cur, var2solv = {}, None, {}
+    with open(trace) as f:
+        for line in f:
+            if '"ev":"begin"' in line:
+                b = json.loads(line)
+                cur = b["id"] if b["k"] == 1 and b["fresh"] else None
+                var2solv = {}
+                if cur is not None:
+                    runs[cur] = {"id": cur, "dec": [], "kind": "", "sol": []}
+            elif cur is None:
+                continue
+            elif '"ev":"var"' in line:
+                e = json.loads(line)
+                if e["solv"]:
+                    var2solv[e["v"]] = e["solv"]
+            elif '"ev":"assign"' in line and '"tag":"decide"' in line:
+                e = json.loads(line)
+                runs[cur]["dec"].append(var2solv.get(e["v"], -1))
+            elif '"ev":"result"' in line:
+                e = json.loads(line)
+                runs[cur]["kind"] = e["kind"]
+                runs[cur]["sol"] = sorted(e["sol"])
+    cases_f, runs_f = os.path.join(wd, "sx.cases"), os.path.join(wd, "sx.runs")
+    kept = 0
+    with open(allc) as fin, open(cases_f, "w") as fc, open(runs_f, "w") as fr:
+        for line in fin:
+            c = json.loads(line)
+            r = runs.get(c["id"])
+            if r is None or r["kind"] not in ("sat", "unsat") or len(c.get("ps", [])) != 1:
+                continue
+            fc.write(line)
+            fr.write(json.dumps(r) + "\n")
+            kept += 1
+    if kept == 0:
+        return {"step_exact_cases": 0}, []
+    out, st = vlib.tlc("Trace_CdclW.tla", "Trace_CdclW.cfg", os.path.join(vlib.WORK, f"md_sx_{prop}"),
+                       env_extra={"CASES": cases_f, "RUNS": runs_f}, workers=8, timeout=timeout,
+                       java_opts="-Xss1g -Xmx8g -XX:+UseParallelGC -XX:ParallelGCThreads=4")
+    viol = []
+    if "No error has been found" not in out:
+        tail = "\n".join(l for l in out.splitlines() if not l.startswith('"'))[-2500:]
+        m = re.search(r"Invariant (\w+) is violated", out)
+        if m:
+            d = os.path.join(vlib.REPLAYS, prop)
+            os.makedirs(d, exist_ok=True)
+            path = os.path.join(d, "replay_through_model_counterexample.txt")
+            open(path, "w").write(tail)
+            viol.append((f"along a real execution replayed through LazyCdclW the model violates {m.group(1)}", path))
+        else:
+            raise vlib.ToolError("TLC failed on Trace_CdclW:\n" + tail)
+    rep, div = {}, {}
+    for line in out.splitlines():
+        if line.startswith('"REPLAYED|'):
+            f = line.strip().strip('"').split("|")
+            rep[int(f[1])] = (f[2], f[3], int(f[4]), int(f[5]), int(f[6]))
+        elif line.startswith('"DIVERGE|'):
+            f = line.strip().strip('"').split("|")
+            div[int(f[1])] = {"at_decision": int(f[2]), "real": f[3], "model_offers": f[4]}
+    exact, differ = 0, []
+    learnt_total = 0
+    for cid, r in runs.items():
+        if cid not in rep:
+            continue
+        k, sol, nl, nr, nd = rep[cid]
+        learnt_total += nl
+        if k == r["kind"] and (k != "sat" or sol == ",".join(str(x) for x in r["sol"])) and nd == len(r["dec"]):
+            exact += 1
+        elif cid not in div:
+            differ.append({"case": cid, "real": [r["kind"], r["sol"], len(r["dec"])], "model": [k, sol, nd]})
+    info = {"step_exact_cases": kept, "step_exact_reproduced": exact, "step_exact_diverged": len(div),
+            "step_exact_outcome_differs": len(differ), "step_exact_examples": (list(div.items())[:3] + differ[:3]),
+            "step_exact_states": st["distinct"], "step_exact_learnt_clauses_in_model": learnt_total,
+            "step_exact_plan": plan}
+    log(f"[{prop}] step-exact replay through LazyCdclW: {kept} runs, {exact} reproduced exactly, "
+        f"{len(div)} diverged, {len(differ)} ended differently, {learnt_total} learnt clauses, {st['distinct']} states")
     return info, viol
